@@ -130,6 +130,18 @@ def r4_1(ctx):
             reach = any(b.reaches(start, r, removed_nodes=tk, removed_edges=ref) for r in rets)
             ctx.ob("make_move:king(%s)->%s" % (colour, right), not reach, b.where((sorted(tk)[0], 0)) if tk else b.file,
                    "every path consistent with a %s king move removes %s" % (colour, right))
+    # (d) only a pawn move empties a square other than the one it leaves: the en-passant removal of the
+    # text applier is a raw write of `Empty` into the board array (the departure square is emptied inside
+    # move_piece).  Under the hypothesis that the moved piece is of any other kind no such write may be
+    # reachable - a knight landing on the square a pawn has just skipped captures nothing beside it.
+    raw_empty = [loc for loc, e in ev.items() if e[0] == "write" and e[1] == "board" and strip_refs(e[2])[:3] == ("agg", "board::Square", "Empty")]
+    for k in sorted(set(kinds.values()) - {"Pawn"}):
+        ref = refuted_edges(b, ex, {kind_e: ("eq", k)}, variants)
+        for i, loc in enumerate(sorted(raw_empty)):
+            reach = b.reaches(0, loc[0], removed_edges=ref)
+            ctx.ob("make_move:square-emptied-only-by-pawn-move(%s)#%d" % (k, i + 1), not reach, b.where(loc),
+                   "`%s` is not reachable when the moved piece is a %s%s" % (b.text_at(loc)[:60], k, "" if not reach else
+                       ": NOT so - a %s moving onto the recorded en-passant target (or any square this test accepts) removes a pawn it did not capture; replayed position and hash are wrong" % k))
     # no other writer of the king cache
     for loc, e in ev.items():
         if e[0] == "write" and e[1].endswith("_king_location"):
@@ -529,6 +541,33 @@ def r4_2(ctx):
             if any(enum_value_on_trace(b, ex, loc[0], x, kinds) == {"Pawn"} for x in cands):
                 trig.append("pawn")
             ctx.ob("make_move:ep-trigger", sorted(trig) == ["pawn", "two-rows"], b.where(loc), "target recorded exactly for a pawn moving two rows: %s" % sorted(trig))
+            # ... and for *every* such move: nothing else decides whether the target is recorded (the
+            # generator and the FEN reader record it unconditionally; a target dropped here loses a legal
+            # en-passant capture and makes the replayed position differ from the generated one)
+            extra = []
+            for d, vals, excl, s, tg in dominating_facts(b, ex, loc[0]):
+                d0 = strip_refs(d)
+                def is_kc(x):
+                    x = strip_refs(x)
+                    return x[0] == "field" and x[2] in ("kind", "color")
+
+                def is_rows(x):
+                    x = strip_refs(x)
+                    while x[0] == "cast":
+                        x = strip_refs(x[2])
+                    return x[0] == "call" and (x[1].endswith("::abs") or x[1].endswith("::abs_diff"))
+                if d0[0] == "bin" and d0[1] in ("Eq", "Ne") and (is_kc(d0[2]) or is_kc(d0[3]) or is_rows(d0[2]) or is_rows(d0[3])):
+                    continue
+                if d0[0] == "discr" and (is_kc(d0[1]) or "Square" in str(d0[2] if len(d0) > 2 else "")):
+                    continue
+                if d0[0] == "call" and (d0[1].endswith("<impl str>::len") or ("PartialEq" in d0[1] and "str" in d0[1])):
+                    continue       # a test of the move text (length / spelling), not of the position
+                if d0[0] == "bin" and any(strip_refs(x)[0] == "call" and strip_refs(x)[1].endswith("<impl str>::len") for x in (d0[2], d0[3])):
+                    continue
+                extra.append((s, d0))
+            ctx.ob("make_move:ep-trigger:no-further-condition", not extra, b.where(b.term_loc(extra[0][0])) if extra else b.where(loc),
+                   "recording the target depends on nothing but (pawn, two rows)%s" % ("" if not extra else
+                       ": NOT so - it also depends on `%s`; a double step for which that test fails leaves no en-passant target" % show_expr(extra[0][1], b)[:120]))
     # --- generator
     an = successor.get(ctx)
     for site, loc in sorted(an.ep_sets, key=lambda x: x[1]):
